@@ -191,7 +191,9 @@ def run_case(c, inputs: dict, call=None, extra_ns=None) -> NativeResult:
         result = call(inputs)
         nr.outcome = "return"
         nr.result = result
-    except Exception as e:  # noqa: BLE001 - every escape is classified below
+    except BaseException as e:  # noqa: BLE001 - every escape (incl. SystemExit) is classified below
+        if isinstance(e, KeyboardInterrupt) or type(e).__name__ == "_Timeout":
+            raise
         nr.outcome = "raise"
         nr.exc = e
     if nr.outcome == "return":
